@@ -329,6 +329,8 @@ func kindCode(t types.ChangeType) int64 {
 		return 2
 	case types.ChangeType_REMOVE:
 		return 3
+	case types.ChangeType_REPLACE: // only ever synthesised by mergeChanges
+		return 4
 	}
 	return 10 + int64(t)
 }
